@@ -70,6 +70,10 @@ type Contract struct {
 	Preimages []*PreClause
 	HashFamily string
 	Pure       bool // frame + determinism obligations (C09)
+	// SplitReturns: each postcondition is stated per return site (guard ==> post[values of that
+	// return]) and the obligation is their conjunction, instead of one statement about the
+	// ite-merged results (same meaning; the terms then match the hypotheses syntactically)
+	SplitReturns bool
 	WireLen    []*Clause // wire-length <= expr: byte length of what the function writes to its Encoder
 	CallAsserts map[string][]*Clause // at <call site> assert <expr> ($arg0.. are the actual arguments)
 	HashOf     *SExpr   // digest expression of the family member (default: result)
@@ -125,7 +129,7 @@ var (
 var clauseKeywords = map[string]bool{
 	"prop": true, "mode": true, "requires": true, "ensures": true, "panics-iff": true, "may-panic": true,
 	"invariant": true, "decreases": true, "unroll": true, "modifies": true, "let": true, "trusted": true,
-	"abstract": true, "inline": true, "split": true, "assert": true, "replay": true, "no-panic": true, "ghost": true, "instance": true, "preimage": true, "hash-family": true, "concrete": true, "wire-length": true, "at": true, "pure": true,
+	"abstract": true, "inline": true, "split": true, "assert": true, "replay": true, "no-panic": true, "ghost": true, "instance": true, "preimage": true, "hash-family": true, "concrete": true, "wire-length": true, "at": true, "pure": true, "split-returns": true,
 }
 
 // qualify turns a contract-file function key into the ssa full name.
@@ -362,6 +366,8 @@ func (cs *ContractStore) addClause(c *Contract, kw, rest, where string) error {
 		c.CallAsserts[site] = append(c.CallAsserts[site], &Clause{Kind: "assert", Label: label, Expr: e, Src: rest, Line: where})
 	case "pure":
 		c.Pure = true
+	case "split-returns":
+		c.SplitReturns = true
 	case "concrete":
 		c.Concrete = append(c.Concrete, strings.Fields(strings.ReplaceAll(rest, ",", " "))...)
 	case "hash-family":
